@@ -105,7 +105,7 @@ func VH_C06_reject() {
 // observable state stays self-consistent, or Control reports corruption
 // and Repair restores agreement.
 func VH_C06_fault() {
-	cfg := vhCfgs[vChoice("cfg", vBound("CFG", 2))] // base, cache
+	cfg := []vhCfg{vhCfgs[0], vhCfgs[1], vhCfgs[2]}[vChoice("cfg", vBound("CFG", 3))] // base, cache, gzip
 	db, root := vhOpenDB(cfg)
 	base := vhNewObj()
 	vAssert("C06.fault.pre", db.InsertOrUpdate(base) == nil)
